@@ -1717,3 +1717,112 @@ def rule_advanced_projected(rep, fb, floor=3, name="ORIGIN.advanced-projected"):
                             "%s hands the caller's `advanced` unchanged to content from which items have been projected away: below this node index k is paired with the wrong row" % f["qual"], detail="projected advanced index")
         cs.each_block_cont(f["body"], onblock)
     return r.done()
+
+
+# ------------------------------------------------------------------------------------------------
+# L-35  constructor arguments carry the role of the parameter they are bound to
+
+_CTOR_STEMS = ("start", "stop", "offset", "index", "tag", "mask", "content", "identit", "parameter", "shape", "stride", "itemsize", "format", "dtype")
+
+
+def rule_ctor_roles(rep, fb, floor=200, name="ROLE.ctor-args"):
+    r = rep.rule(name, "where a node class is constructed (make_shared<X>(...), X(...)), an argument whose identifier names the role of a *different* parameter of that constructor (stops passed for starts, "
+                 "size for zeros_length, index for tags ...) is a swapped or mistaken argument: role stems of argument and parameter intersect whenever the argument carries one of the constructor's own role stems", floor=floor)
+    classes = fb.classes()
+    ctors = {}
+    for cn, c in classes.items():
+        base = cn.split("<")[0]
+        for m in c["methods"]:
+            if m[0].split("<")[0] == base and len(m) >= 5:
+                ctors.setdefault(base, []).append(m[4])
+
+    def stems(n):
+        n = (n or "").lower()
+        return {s for s in _CTOR_STEMS if s in n}
+    alias = {"ListArray32": "ListArrayOf", "ListArrayU32": "ListArrayOf", "ListArray64": "ListArrayOf", "ListOffsetArray32": "ListOffsetArrayOf", "ListOffsetArrayU32": "ListOffsetArrayOf",
+             "ListOffsetArray64": "ListOffsetArrayOf", "IndexedArray32": "IndexedArrayOf", "IndexedArrayU32": "IndexedArrayOf", "IndexedArray64": "IndexedArrayOf", "IndexedOptionArray32": "IndexedArrayOf",
+             "IndexedOptionArray64": "IndexedArrayOf", "UnionArray8_32": "UnionArrayOf", "UnionArray8_U32": "UnionArrayOf", "UnionArray8_64": "UnionArrayOf"}
+    for f in fb.lib_funcs(inst=False):
+        n = 0
+        for m in find_all(f["body"], lambda k: k[0] in ("make", "ctor") and len(k[2]) >= 3):
+            base = str(m[1]).split("<")[0]
+            base = alias.get(base, base)
+            cands = [p for p in ctors.get(base, []) if len(p) == len(m[2])]
+            if not cands:
+                continue
+            params = cands[0]
+            allstems = set()
+            for p in params:
+                allstems |= stems(p)
+            for p, a in zip(params, m[2]):
+                ps = stems(p)
+                rid = cs.root_ident(a)
+                asx = stems(rid) & allstems
+                if not ps or not asx:
+                    continue
+                n += 1
+                key = "%s#%s#%d:%s<-%s" % (f["qual"], base, n, p, rid)
+                r.check(bool(ps & asx), key, "%s:%d" % (f["file"], m[-1] if isinstance(m[-1], int) else f["line"]),
+                        "%s passes '%s' as the '%s' argument of %s's constructor (roles %s vs %s)" % (f["qual"], rid, p, base, sorted(asx), sorted(ps)), detail="%s <- %s" % (p, rid))
+    return r.done()
+
+
+# ------------------------------------------------------------------------------------------------
+# L-36  the same for calls of libawkward's own functions and methods
+
+_CALL_STEMS = ("start", "stop", "offset", "index", "tag", "mask", "parent", "carry", "advanced", "shift", "content", "identit", "parameter", "shape", "stride", "ascending", "stable", "keepdims", "negaxis", "outlength", "target", "depth", "axis")
+
+
+def rule_call_roles(rep, fb, floor=1500, name="ROLE.call-args"):
+    r = rep.rule(name, "at a call of a libawkward function or method whose parameter names are known (all definitions of that name and arity agree on them), an argument whose identifier names the role of a "
+                 "different parameter of the callee (stops for start, parents for starts, stable for ascending, depth for axis ...) is a swapped or mistaken argument", floor=floor)
+    sig = {}
+    for f in fb.lib_funcs(inst=False):
+        names = tuple(p[0] for p in f["params"])
+        sig.setdefault((f["name"], len(names)), set()).add(names)
+    # per (name, arity, position): the parameter name if unanimous
+    unanimous = {}
+    for (nm, ar), variants in sig.items():
+        for i in range(ar):
+            pn = {v[i] for v in variants}
+            if len(pn) == 1:
+                unanimous[(nm, ar, i)] = next(iter(pn))
+
+    def stems(n):
+        n = (n or "").lower()
+        return {s for s in _CALL_STEMS if s in n}
+    for f in fb.lib_funcs(inst=False):
+        if "kernel-dispatch" in f["file"]:
+            continue
+        n = 0
+        for c in find_all(f["body"], lambda k: k[0] in ("mcall", "call")):
+            if c[0] == "call":
+                if c[1][0] != "fn":
+                    continue
+                nm = str(c[1][1]).split("::")[-1]
+                if str(c[1][1]).startswith("kernel::") or str(c[1][1]).startswith("awkward_"):
+                    continue
+                args = c[2]
+            else:
+                nm, args = c[1], c[4]
+            ar = len(args)
+            if (nm, ar) not in sig:
+                continue
+            callee_stems = set()
+            for i in range(ar):
+                callee_stems |= stems(unanimous.get((nm, ar, i)))
+            for i, a in enumerate(args):
+                pn = unanimous.get((nm, ar, i))
+                ps = stems(pn)
+                if not ps:
+                    continue
+                rid = cs.root_ident(a)
+                if rid and "len" in rid.lower():
+                    continue   # offsets_length, lenstarts ...: a length of X, not X
+                asx = stems(rid) & callee_stems
+                if not asx:
+                    continue
+                n += 1
+                r.check(bool(ps & asx), "%s#%s#%d:%s<-%s" % (f["qual"], nm, n, pn, rid), "%s:%d" % (f["file"], c[-1] if isinstance(c[-1], int) else f["line"]),
+                        "%s passes '%s' as the '%s' argument of %s (roles %s vs %s)" % (f["qual"], rid, pn, nm, sorted(asx), sorted(ps)), detail="%s <- %s" % (pn, rid))
+    return r.done()
